@@ -135,10 +135,11 @@ class NameSanitizer:
 
         # Split on non-alphanumeric and camel case boundaries
         words = re.findall(r"[A-Z]+(?=[A-Z][a-z])|[A-Z]?[a-z]+|[A-Z]+|[0-9]+", name)
-        if not words:
-            # fallback: split on non-alphanumerics
-            words = re.split(r"\W+", name)
         module = "_".join(word.lower() for word in words if word)
+        if not module:
+            # Name had no ASCII letters or digits (e.g. "", "-", "²"); mirror sanitize_class_name's fallback
+            # so the result is always a usable identifier.
+            module = "unnamed"
         # If it starts with a digit, prefix with underscore
         if module and module[0].isdigit():
             module = "_" + module
@@ -206,8 +207,11 @@ class NameSanitizer:
         name = re.sub(r"[^0-9a-zA-Z_]", "_", name)
         # Lowercase and collapse multiple underscores
         name = re.sub(r"_+", "_", name).strip("_").lower()
+        if not name:
+            # Nothing usable left (e.g. "", "_", "{}", "@"): never return an empty identifier
+            name = "unnamed"
         # If it starts with a digit, prefix with underscore
-        if name and name[0].isdigit():
+        if name[0].isdigit():
             name = "_" + name
         # Avoid Python keywords and reserved names
         if keyword.iskeyword(name) or name in NameSanitizer.RESERVED_NAMES:
